@@ -7,7 +7,7 @@ globals().update(
         pid="C14",
         props=["JaqalProofs/Props/C14.lean"],
         targets=["JaqalProofs.Props.C14"],
-        diffs=[("harness.agents.build_diff", 700, 6000)],
+        diffs=[("harness.agents.build_diff", 700, 6000), ("harness.agents.c14_inject", 120, 250)],
         extra_run=extra_run,
         trusted=[
             STD_TRUST,
